@@ -318,6 +318,11 @@ EqLaws(xs, on, k) ==
           THEN "eq:grid"
      ELSE IF \E nn \in {-7, -1, 0, 2, 5} : \E d \in {1, 3, 7, 4096} :
                LET v == GridCoord(Rat(nn, d), 2048) IN v = GBad \/ 2 * IDist(v * d, nn * 2048) > d THEN "eq:gridcoord"
+     ELSE IF \E nn \in {-70000001, 5, 123456789} : \E d \in {3145729, 1048577} :   \* big denominators: within 1/2 + 1/16
+               LET v == GridCoord(Rat(nn, d), 2048)
+                   x == Rat(nn, d)
+               IN v = GBad \/ RLt(Rat(9, 16), RAbs(RSub(RMul(RSub(x, RInt(x[1] \div x[2])), RInt(2048)), RInt(v - (x[1] \div x[2]) * 2048))))
+          THEN "eq:gridcoord-big-denominator"
      ELSE IF GridCoord(Rat(4000000, 3), 2048) # GBad \/ GridCoord(RNaN, 2048) # GBad THEN "eq:gridcoord-overflow"
      ELSE IF ShiftCandidates(Rat(5, 2), TRUE) # {Rat(5, 2), RInt(2), RInt(3)} \/ ShiftCandidates(Rat(-7, 4), TRUE) # {Rat(-7, 4), RInt(-2)}
              \/ ShiftCandidates(Rat(5, 2), FALSE) # {Rat(5, 2)} THEN "eq:shift-candidates"
